@@ -94,9 +94,19 @@ def main(tier, seed):
             info = None
         tag = "%s T=%d seed=%d" % (res["tool"], res["T"], res["seed"])
         if res["rc"] is None:
-            raise core.Inconclusive("watchdog fired: " + tag)
+            rep.violation("hang-under-concurrency/%s" % res["tool"], {"tool": res["tool"], "threads": res["T"], "seed": res["seed"]},
+                          {"note": "runner did not finish within its watchdog although the sequential reference pass is bounded"})
+            continue
         if info is None or "error" in (info or {}):
-            if res["rc"] not in (66, 67) or not res["reports"]:
+            if info is not None and "error" in info:
+                # the *sequential* reference pass failed or is not deterministic: not a concurrency verdict
+                if not res["reports"]:
+                    raise core.Inconclusive("runner failed (%s): %s" % (tag, info))
+            elif not res["reports"] and (res["rc"] < 0 or res["rc"] in (134, 139, 66, 67) or "Sanitizer" in res["err"]):
+                # the sequential reference (forked child) succeeded, the threaded phase died: crash only under concurrency
+                rep.violation("crash-under-concurrency/%s/%s" % (res["tool"], driver.crash_signature(res["err"], res["rc"])),
+                              {"tool": res["tool"], "threads": res["T"], "seed": res["seed"]}, {"stderr": res["err"][-1500:]})
+            elif not res["reports"]:
                 raise core.Inconclusive("runner failed (%s): rc=%s %s %s" % (tag, res["rc"], res["out"][-300:], res["err"][-600:]))
         if info and "calls" in info:
             calls += info["calls"]
